@@ -8,6 +8,7 @@ from props.regcommon import SIZE
 ID = "C04"
 DRIVER = "drv_regtable"
 HARNESS = "h_regtable"
+THOROUGH_SEEDS = 2
 GEN = [constants.gen]
 TIE = ['Ufw.Tie.RegTable']
 RULE = ("exhaustive small scope: 0-3 areas over a base/size grid (adjacent, overlapping by one atom, reversed order, empty area between "
